@@ -45,6 +45,46 @@ def rules(ctx):
                   "no class customises pickling (state = full __dict__)" if not hooks else
                   f"custom pickling hooks {hooks}: coverage of every constructor-assigned attribute is not established",
                   key="E3.pickle-hooks:" + ",".join(sorted(hooks))))
+    # 2b. no instance-level state beyond what the constructors assign may enter pickle.dumps(self):
+    #     memoisation on the instance (cached_property) or attributes first created by a query would be pickled too, and
+    #     ndarray-subclass values lose their attached attributes (variables / index / default_prio_vector) in a pickle
+    from ..effects import memo_sites, Effects, CTOR_NAMES
+    fam = {c.qualname for c in P.subclasses(P.cls("puan.logic.plog.AtLeast"))}
+    extra_state = []
+    for site in memo_sites(P):
+        fi = site[0]
+        if fi is not None and fi.cls is not None and fi.cls.qualname in fam and site[1].endswith("cached_property"):
+            extra_state.append((fi.loc(), f"{fi.qualname} is a cached_property: its value is stored in the instance and pickled with it"))
+    ctor_attrs = set()
+    for cq in fam:
+        for m in P.classes[cq].methods.values():
+            if m.name in CTOR_NAMES:
+                for n in ast.walk(m.node):
+                    if isinstance(n, ast.Attribute) and isinstance(n.ctx, ast.Store) and isinstance(n.value, ast.Name) and n.value.id == "self":
+                        ctor_attrs.add(n.attr)
+    ctor_attrs |= {"prio"}
+    for cq in sorted(fam):
+        for m in P.classes[cq].methods.values():
+            if m.name in CTOR_NAMES:
+                continue
+            for n in ast.walk(m.node):
+                new_attr = None
+                if isinstance(n, ast.Attribute) and isinstance(n.ctx, ast.Store) and isinstance(n.value, ast.Name) and n.value.id == "self" \
+                        and n.attr not in ctor_attrs:
+                    new_attr = n.attr
+                if isinstance(n, ast.Subscript) and isinstance(n.ctx, ast.Store) and ast.unparse(n.value) == "self.__dict__":
+                    new_attr = "__dict__[…]"
+                if isinstance(n, ast.Call) and ast.unparse(n.func) in ("self.__dict__.update", "self.__dict__.setdefault", "setattr", "object.__setattr__") \
+                        and (ast.unparse(n.func).startswith("self.") or (n.args and ast.unparse(n.args[0]) == "self")):
+                    new_attr = ast.unparse(n)[:60]
+                if new_attr:
+                    extra_state.append((f"{m.file}:{n.lineno} {m.qualname}", f"query stores instance state `{new_attr}` that no constructor assigns; it is pickled by to_b64"))
+    for where, text in extra_state:
+        obs.append(Ob(f"E3.pickle-state:{where.split()[-1]}", "E3.pickle-state", where, "violation", text + " (the unpacked object is not the object a fresh construction gives; attached array attributes are lost)",
+                      key=f"E3.pickle-state:{where.split()[-1]}"))
+    if not extra_state:
+        obs.append(Ob("E3.pickle-state", "E3.pickle-state", f"{len(fam)} model classes", "ok",
+                      "instances carry only constructor-assigned attributes (no instance caches enter the pickle)"))
     # 3. positional agreement list[i] <-> __new__ parameter i
     new = P.func(CFG + ".__new__")
     params = new.params[1:]
